@@ -74,6 +74,12 @@ func (ur *usageTracker) NewReport(serviceName, version, hostname string, now tim
 		return nil, err
 	}
 	// clear the current data points and keep the last data points until we know the report was sent
+	// Whatever is still in lastDataPoints belongs to a report whose delivery was
+	// never confirmed (completeSend clears it). This report carries it again, so
+	// keep it as unconfirmed together with the new data instead of dropping it.
+	for signal, usage := range ur.lastDataPoints {
+		ur.currentDataPoints[signal] += usage
+	}
 	ur.lastDataPoints = ur.currentDataPoints
 	ur.currentDataPoints = make(map[usageSignal]float64)
 	return data, nil
